@@ -51,14 +51,19 @@ func (pe *peval) run(fn *ssa.Function, args []aval, depth int) []poutcome {
 		env    map[ssa.Value]aval
 		guards []pguard
 	}
-	var walk func(b, from *ssa.BasicBlock, fr frame, visited map[*ssa.BasicBlock]int)
-	walk = func(b, from *ssa.BasicBlock, fr frame, visited map[*ssa.BasicBlock]int) {
-		if pe.paths > pe.maxPaths || visited[b] > 1 {
+	var walkAt func(b, from *ssa.BasicBlock, fr frame, visited map[*ssa.BasicBlock]int, start int)
+	walk := func(b, from *ssa.BasicBlock, fr frame, visited map[*ssa.BasicBlock]int) {
+		walkAt(b, from, fr, visited, 0)
+	}
+	walkAt = func(b, from *ssa.BasicBlock, fr frame, visited map[*ssa.BasicBlock]int, start int) {
+		if pe.paths > pe.maxPaths || (start == 0 && visited[b] > 1) {
 			out = append(out, poutcome{guards: fr.guards, noRes: true})
 			return
 		}
-		visited[b]++
-		defer func() { visited[b]-- }()
+		if start == 0 {
+			visited[b]++
+			defer func() { visited[b]-- }()
+		}
 		val := func(v ssa.Value) aval {
 			if k, ok := constIntVal(v); ok {
 				return aval{known: true, k: k}
@@ -68,7 +73,7 @@ func (pe *peval) run(fn *ssa.Function, args []aval, depth int) []poutcome {
 			}
 			return aval{}
 		}
-		for _, ins := range b.Instrs {
+		for _, ins := range b.Instrs[start:] {
 			switch x := ins.(type) {
 			case *ssa.Phi:
 				for i, p := range b.Preds {
@@ -129,7 +134,7 @@ func (pe *peval) run(fn *ssa.Function, args []aval, depth int) []poutcome {
 					}
 					if len(live) > 1 {
 						// fork: continue the rest of this block once per callee outcome
-						rest := b.Instrs[instrIndex(b, x)+1:]
+						next := instrIndex(b, x) + 1
 						for _, o := range live {
 							pe.paths++
 							nf := frame{env: map[ssa.Value]aval{}, guards: append(append([]pguard{}, fr.guards...), o.guards...)}
@@ -139,9 +144,7 @@ func (pe *peval) run(fn *ssa.Function, args []aval, depth int) []poutcome {
 							if !o.noRes {
 								nf.env[x] = o.res
 							}
-							pe.finish(b, rest, nf.env, nf.guards, &out, func(nb *ssa.BasicBlock, env map[ssa.Value]aval, g []pguard) {
-								walk(nb, b, frame{env, g}, visited)
-							})
+							walkAt(b, from, nf, visited, next)
 						}
 						return
 					}
